@@ -31,6 +31,9 @@ def run(ctx):
     N = ctx.scale(900, 12000)
     for it in range(N):
         n = rng.randint(2, 14)
+        if it % 60 == 13:
+            n = rng.randint(18, 40)      # scale-up slice: more merges, more ties
+            ctx.count("large_collections")
         kind = rng.choice(["alpha", "dyadic", "gauss"])
         equal = rng.random() < 0.5
         n0 = rng.randint(1, 6)
